@@ -1,6 +1,7 @@
 """C17 — an unreliable cache backend costs recomputation, never a wrong value or failure."""
 from __future__ import annotations
 
+import copy
 import itertools
 
 from hypothesis import strategies as st
@@ -98,10 +99,17 @@ def check(case, ctx):
         ctx.done(case, False, ["excluded-K6"])
         return
     labels = set()
+    live = {}
     for i, o in enumerate(case["history"]):
         r = ref.run(o)
         fired_before = len(script.fired)
-        out = run(G.root.evaluate, o)
+        if case.get("reuse_dict_object"):
+            live.clear()
+            live.update(copy.deepcopy(o))
+            out = run(G.root.evaluate, live)
+            labels.add("same-dict-object-edited-in-place")
+        else:
+            out = run(G.root.evaluate, o)
         where = f"step {i} options={o} script={case['script']} fired={script.fired}"
         if r.ok:
             if not out.ok:
@@ -121,6 +129,9 @@ def enum_scripts(ctx):
     fam = _family()
     for d in [x for s in fam for x in s["defs"]]:
         d.pop("effects", None)
+    # a bare cached(...) expression (long-lived Cached object over the scripted backend)
+    fam.append({"defs": [{"name": "d0", "body": "tag", "params": [{"k": "opt", "key": "A"}], "form": "decorator", "nocache": True}],
+                "root": {"k": "cached", "body": {"k": "tuple", "items": [{"k": "ref", "name": "d0"}, {"k": "opt", "key": "K", "default": {"t": "const", "v": 0}}]}}})
     # a cached dataset as a non-last coalesce member that cannot be evaluated for some dictionaries of the history
     fam[1] = {"defs": [{"name": "d0", "body": "tag", "params": [{"k": "opt", "key": "K"}], "form": "decorator"},
                        {"name": "d1", "body": "tag", "params": [{"k": "ref", "name": "d0"}, {"k": "opt", "key": "A"}], "form": "explicit"}],
@@ -135,8 +146,8 @@ def enum_scripts(ctx):
             # for the coalesce graph the first dictionary already makes a non-last member fail, so that the enumerated
             # faults hit the validation / recovery calls of that member
             h = [{"A": 2}, {"A": 1, "K": 1}, {"A": 2}, {"K": 3}] if fi == 1 else hist
-            yield {"spec": spec, "history": h, "script": list(script), "family": fi}
-    ctx.exhaustive[f"all-5^{n}-fault-scripts-x-3-graphs"] = ctx.exhaustive.get(f"all-5^{n}-fault-scripts-x-3-graphs", 0) + k // ctx.nshards
+            yield {"spec": spec, "history": h, "script": list(script), "family": fi, "reuse_dict_object": k % 2 == 0}
+    ctx.exhaustive[f"all-5^{n}-fault-scripts-x-4-graphs"] = ctx.exhaustive.get(f"all-5^{n}-fault-scripts-x-4-graphs", 0) + k // ctx.nshards
 
 
 @st.composite
@@ -144,7 +155,7 @@ def cases(draw, prof):
     spec = draw(specgen.specs(prof))
     hist = draw(U.histories(min_len=2, max_len=6, p_present=0.9, allow_unmentioned=False))
     script = draw(st.lists(st.sampled_from(FAULTS + ["behave"] * 3), min_size=1, max_size=40))
-    return {"spec": spec, "history": hist, "script": script}
+    return {"spec": spec, "history": hist, "script": script, "reuse_dict_object": draw(st.booleans())}
 
 
 PROFILE = specgen.profile(depth=2, domain_rate=0.01, max_defs=5, effects=False)
